@@ -464,6 +464,12 @@ void World::checkLogger(int i, const Op& op, const Obs& before) {
 		const int target = t.k == EV_DEFAULT ? t.state : t.a;
 		const int ok = t.k == EV_SUCCEED || (t.k == EV_DEFAULT && t.method == M_PLAN_SUCCEEDED);
 		if (l.state != target || l.b != ok) { std::snprintf(b, sizeof b, "%s: task status of state %d (%s) reported as state %d (%s)", h.role.c_str(), target, ok ? "ok" : "fail", l.state, l.b ? "ok" : "fail"); violate("C16.logger_tasks", b, i); break; }
+		// ... on behalf of the region in whose scope the caller runs: the caller itself if it heads a region, else the region it sits in
+		if ((t.k == EV_SUCCEED || t.k == EV_FAIL) && t.state >= 0 && (t.method == M_EXIT_GUARD || t.method == M_ENTRY_GUARD || t.method == M_UPDATE || t.method == M_PRE_UPDATE || t.method == M_POST_UPDATE)) {
+			const int scope = sh.isRegion(t.state) ? t.state : sh.st[size_t(t.state)].parent;
+			checked("C16.logger_task_region");
+			if (l.a != scope) { std::snprintf(b, sizeof b, "%s: task status set by state %d in %s was reported for region %d, the caller's region is %d", h.role.c_str(), t.state, methodName(t.method), l.a, scope); violate("C16.logger_task_region", b, i); break; }
+		}
 	}
 	// plan status precedes planSucceeded / planFailed of headed heads; select / random resolutions report what happened
 	for (size_t k = 0; k < h.trace.size(); ++k) {
